@@ -30,7 +30,7 @@ THRESHOLDS = {"quick": {**{f"c05:{f}:{c}": 30 for f in FORMATS for c in ("memory
                         "c05:collection-empty-member": 10, "c05:no-meta-at-all": 30, "c05:precollected": 30, "c05:with-meta": 100,
                         "c05:len>=100": 8, "c05:one-cell-solution": 30, "c05:two-cell-solution": 30, "c05:meta-keys-compared": 100,
                         "c05:auto-picked-minimal": 20, "c05:auto-picked-full": 20,
-                        "c05:solution>127-cells": 20, "c05:solution>255-cells": 3, "c05:len>127": 8, "c05:overwrite-same-config": 40, "c05:reserialize-after-in-place-edit": 120, "c05:float-metadata-key-many-digits": 60, "c05:collection-members-with-equal-configs": 20, "c05:filter-history": 100, "c05:filter-history-repeated-entry": 30, "c05:total-solution-cells>32767": 8, "c05:generator-kwarg:list": 20, "c05:grid-side>128": 8, "c05:config-seed-0": 20, "c05:endpoint-options-in-config": 8, "c05:generator-kwarg:tuple": 3, "c05:hand-built-from-callers-config": 5, "c05:config-compared-with-library-eq": 1000}}
+                        "c05:solution>127-cells": 20, "c05:solution>255-cells": 3, "c05:len>127": 8, "c05:overwrite-same-config": 40, "c05:reserialize-after-in-place-edit": 120, "c05:float-metadata-key-many-digits": 60, "c05:collection-members-with-equal-configs": 20, "c05:filter-history": 100, "c05:filter-history-repeated-entry": 30, "c05:total-solution-cells>32767": 8, "c05:generator-kwarg:list": 20, "c05:re-arranged-after-load": 300, "c05:earlier-save-to-same-path-failed": 20, "c05:grid-side>128": 8, "c05:config-seed-0": 20, "c05:endpoint-options-in-config": 8, "c05:generator-kwarg:tuple": 3, "c05:hand-built-from-callers-config": 5, "c05:config-compared-with-library-eq": 1000}}
 THRESHOLDS["thorough"] = dict(THRESHOLDS["quick"])
 ANCHORS = ["maze_dataset.dataset.maze_dataset:MazeDataset.serialize", "maze_dataset.dataset.maze_dataset:MazeDataset.load",
            "maze_dataset.dataset.maze_dataset:MazeDataset._load_full", "maze_dataset.dataset.maze_dataset:MazeDataset._load_minimal",
@@ -291,6 +291,17 @@ def roundtrips(ctx, make_ds, j, rng, tags, n):
                     loaded = MazeDataset.load(data)
                 else:
                     path = os.path.join(ctx.work, f"c05-{j}-{fmt}.zanj")
+                    if j % 4 == 1:
+                        # an earlier attempt to write to the same path that fails (an empty dataset cannot be written in the compact
+                        # formats; the caller catches the error and carries on), then the real save
+                        try:
+                            md.set_serialize_minimal_threshold(0)
+                            MazeDataset(ds.cfg, []).save(path)
+                            ctx.tally("c05:earlier-save-to-same-path-succeeded(not judged)")
+                        except Exception:  # noqa: BLE001
+                            ctx.tally("c05:earlier-save-to-same-path-failed")
+                        finally:
+                            md.set_serialize_minimal_threshold(thr)
                     ds.save(path)
                     loaded = MazeDataset.read(path)
                     os.unlink(path)
@@ -309,6 +320,17 @@ def roundtrips(ctx, make_ds, j, rng, tags, n):
                 # pre-existing collected metadata must be unchanged by the call itself
                 ctx.check(meta_norm(ds.generation_metadata_collected) == snap["meta"], f"{mech}/serialization-changed-collected-metadata", "", case)
             compare(ctx, snap, cfg_fields(ds.cfg), loaded, mech, case, expect_meta_from=exp_meta, ds_cfg=ds.cfg)
+            if n >= 2 and isinstance(loaded, MazeDataset) and len(loaded.mazes) == n and (j + len(fmt)) % 2 == 0:
+                # second generation: what was loaded is re-arranged (reversed, rotated) into a new dataset and written again
+                order = list(range(n))[::-1] if j % 4 < 2 else list(range(1, n)) + [0]   # (no object twice: collecting metadata empties each maze's own)
+                re_ds = MazeDataset(loaded.cfg, [loaded.mazes[k] for k in order])
+                snap_re = snapshot(re_ds)
+                for fmt2 in ("minimal", "minimal_soln_cat", "full"):
+                    data2 = {"full": re_ds._serialize_full, "minimal": re_ds._serialize_minimal, "minimal_soln_cat": re_ds._serialize_minimal_soln_cat}[fmt2]()
+                    back2 = MazeDataset.load(data2)
+                    ctx.tally("c05:re-arranged-after-load")
+                    compare(ctx, snap_re, cfg_fields(re_ds.cfg), back2, f"C05/{fmt2}/re-arranged-after-{fmt}-load", dict(case, order=order[:12]),
+                            expect_meta_from=meta_norm(re_ds.generation_metadata_collected) if re_ds.generation_metadata_collected is not None else snap_re["meta"])
             lens = {len(m["sol"]) for m in snap["mazes"]}
             if n >= 2 and len(lens) >= 2:
                 ctx.nontrivial(j, fmt, chan, thr)
